@@ -46,6 +46,8 @@ EDITS = {
         ("cc01", "crates/lib/mimium-lang/src/runtime/vm.rs", "                    self.states_stack.push(cls_i);\n                    self.call_function(func, nargs, nret_req, move |machine| {\n                        machine.execute(pos_of_f, Some(cls_i))\n                    });\n                    self.states_stack.pop();\n                }\n                Instruction::Call(", "                    self.states_stack.push(cls_i);\n                    self.call_function(func, nargs, nret_req, move |machine| {\n                        machine.execute(pos_of_f, Some(cls_i))\n                    });\n                }\n                Instruction::Call(", "verus", "vm_storage"),
         ("cc02", "crates/lib/mimium-lang/src/runtime/vm.rs", "                    let pos_of_f = cls.fn_proto_pos;\n                    self.states_stack.push(cls_i);\n                    self.call_function(func, nargs, nret_req, move |machine| {\n                        machine.execute(pos_of_f, Some(cls_i))\n                    });\n                    self.states_stack.pop();\n                }\n                Instruction::Call(", "                    let pos_of_f = cls.fn_proto_pos;\n                    self.call_function(func, nargs, nret_req, move |machine| {\n                        machine.execute(pos_of_f, Some(cls_i))\n                    });\n                }\n                Instruction::Call(", "verus", "vm_storage"),
         ("al01", "crates/lib/mimium-lang/src/compiler/mirgen.rs", "                        let (v, t, s) = self.eval_expr(*item);\n                        ((v, t), s)", "                        let (v, t, s) = self.eval_expr(*item);\n                        let s = if s.len() > 1 { Vec::new() } else { s };\n                        ((v, t), s)", "verus", "mirgen_state"),
+        ("cv01", "crates/lib/mimium-lang/src/compiler/mirgen.rs", "            Value::Function(idx) => self.emit_fncall(*idx as u64, coerced_args.to_vec(), ret_ty),", "            Value::Function(idx) => (self.emit_fncall(*idx as u64, coerced_args.to_vec(), ret_ty).0, vec![]),", "verus", "mirgen_state"),
+        ("cv02", "crates/lib/mimium-lang/src/compiler/mirgen.rs", "                    self.make_intrinsics(*label, raw_args, coerced_args, ret_ty)\n                {\n                    (res, states)", "                    self.make_intrinsics(*label, raw_args, coerced_args, ret_ty)\n                {\n                    let _ = states;\n                    (res, vec![])", "verus", "mirgen_state"),
         ("aa01", "crates/lib/mimium-lang/src/compiler/mirgen.rs", "            states.extend(s);\n            self.push_inst(Instruction::Store(ptr, v, elem_ty));", "            if i == 0 { states.extend(s); }\n            self.push_inst(Instruction::Store(ptr, v, elem_ty));", "verus", "mirgen_state"),
         ("aa02", "crates/lib/mimium-lang/src/compiler/mirgen.rs", "        // from the type information.\n        (dst, alloc_ty, states)", "        // from the type information.\n        (dst, alloc_ty, Vec::new())", "verus", "mirgen_state"),
         ("ea01", "crates/lib/mimium-lang/src/compiler/mirgen.rs", "        (ats, states)\n    }", "        (ats, Vec::new())\n    }", "verus", "mirgen_state"),
@@ -176,6 +178,7 @@ EDITS = {
         ("dt03", "crates/lib/plugins/mimium-audiodriver/src/backends/local_buffer.rs", "            self.count.store(now + 1, Ordering::Relaxed);", "            self.count.store(now + 2, Ordering::Relaxed);", "verus", "dsp_tick"),
         ("dt04", "crates/lib/plugins/mimium-audiodriver/src/backends/local_buffer.rs", "            let _ = vmdata.run_dsp(Time(now));", "            let _ = vmdata.run_dsp(Time(now + 1));", "verus", "dsp_tick"),
         ("dt05", "crates/lib/plugins/mimium-audiodriver/src/driver.rs", "                let _ = plug.on_sample(time, &mut self.vm);", "                let _ = plug.on_sample(Time(time.0.saturating_sub(1)), &mut self.vm);", "verus", "dsp_tick"),
+        ("hf01", "crates/lib/mimium-lang/src/utils/half_float.rs", "        let hv = f16::from_f64(value);", "        let hv = f16::from_f64(value);\n        let value = value + 1.0;", "verus", "float_imm"),
         ("sc01", SCH + "scheduler.rs", "Some(Reverse(Task { when, closure })) if *when <= now => {", "Some(Reverse(Task { when, closure })) if *when < now => {", "verus", "scheduler"),
         ("sc02", SCH + "scheduler.rs", "self.when.cmp(&other.when)", "self.closure.cmp(&other.closure)", "both", "scheduler"),
         ("sc03", SCH + "scheduler.rs", "                let _ = self.tasks.pop();\n", "", "verus", "scheduler"),
